@@ -15,7 +15,6 @@ const (
 	c12Cache     = pkgDynCache + ".Cache"
 	c12IMap      = pkgDynCache + ".InformerMap"
 	c12Source    = pkgDynCache + ".cacheSource"
-	c12MapEntry  = pkgDynCache + ".mapEntry"
 	c12IfaceIMap = "invoke:" + pkgDynCache + ".informerMap."
 	c12Refs      = "informerReferences"
 	c12RefsMux   = c12Cache + ".informerReferencesMux"
@@ -956,6 +955,99 @@ func c12r5(c *Ctx) {
 	}
 }
 
+// c12ReadCtx: one read path that reaches informerMap.Get. Normally Fn is the function containing the
+// call; when the call sits in an extracted helper that hands the informer/reader it obtained back to
+// its callers, the read paths are the helper's call sites (Site = the call of the helper in Fn).
+type c12ReadCtx struct {
+	Fn    *ssa.Function
+	Site  ssa.CallInstruction // call of informerMap.Get, or of the helper that performs it
+	Get   Call                // the informerMap.Get call itself
+	Chain []Call              // helper calls leading from Fn to Get (outermost first)
+}
+
+// c12ReturnsResultOf: some non-error result of fn is (on some path) a non-error result of call.
+func (p *Program) c12ReturnsResultOf(fn *ssa.Function, call ssa.CallInstruction) bool {
+	cv, ok := call.(*ssa.Call)
+	if !ok {
+		return false
+	}
+	for _, rc := range p.returnCases(fn) {
+		for i, r := range rc.Results {
+			if i == errResultIndex(fn) {
+				continue
+			}
+			for _, pv := range p.possibleValues(r) {
+				if src, _ := asCall(pv); src == cv && pv.Type().String() != "error" {
+					return true
+				}
+			}
+		}
+	}
+	return false
+}
+
+func (p *Program) c12ReadContexts(get Call) []c12ReadCtx {
+	var out []c12ReadCtx
+	var walk func(fn *ssa.Function, site ssa.CallInstruction, chain []Call, depth int)
+	walk = func(fn *ssa.Function, site ssa.CallInstruction, chain []Call, depth int) {
+		if depth < 3 && p.inlinable(fn) && p.c12ReturnsResultOf(fn, site) {
+			for _, cs := range p.callersOf(fn) {
+				if cs.Fn == fn {
+					continue
+				}
+				walk(cs.Fn, cs.Instr, append([]Call{cs}, chain...), depth+1)
+			}
+			return
+		}
+		out = append(out, c12ReadCtx{Fn: fn, Site: site, Get: get, Chain: chain})
+	}
+	walk(get.Fn, get.Instr, nil, 0)
+	return out
+}
+
+// c12ErrCase: one way a function can produce its error result: the value, the facts under which it
+// is returned (those of the helper included when the error is the unchanged error of an extracted
+// helper) and the return instruction that produced the value.
+type c12ErrCase struct {
+	Val   ssa.Value
+	Facts []Fact
+	Ret   *ssa.Return
+	Outer *ssa.Return // return of the root function
+}
+
+// c12ErrCases enumerates the error results of fn, looking through `x, err := helper(...); return err`
+// for inlinable helpers.
+func (p *Program) c12ErrCases(fn *ssa.Function, depth int) []c12ErrCase {
+	idx := errResultIndex(fn)
+	if idx < 0 {
+		return nil
+	}
+	var out []c12ErrCase
+	for _, rc := range p.returnCases(fn) {
+		if fn.Recover != nil && rc.Ret.Block() == fn.Recover {
+			continue
+		}
+		for _, pv := range p.possibleValues(rc.Results[idx]) {
+			call, ci := asCall(pv)
+			if call != nil && depth < 3 {
+				if h := staticCallee(call.Common()); h != nil && h != fn && p.inlinable(h) {
+					hi := errResultIndex(h)
+					if hi >= 0 && (ci == hi || ci == -1 && h.Signature.Results().Len() == 1) {
+						for _, hc := range p.c12ErrCases(h, depth+1) {
+							hc.Facts = append(append([]Fact{}, rc.Facts...), hc.Facts...)
+							hc.Outer = rc.Ret
+							out = append(out, hc)
+						}
+						continue
+					}
+				}
+			}
+			out = append(out, c12ErrCase{Val: pv, Facts: rc.Facts, Ret: rc.Ret, Outer: rc.Ret})
+		}
+	}
+	return out
+}
+
 func c12r6(c *Ctx) {
 	p := c.P
 	watch := map[*ssa.Function]bool{}
@@ -963,73 +1055,155 @@ func c12r6(c *Ctx) {
 		watch[f] = true
 	}
 	n := 0
-	for _, fn := range p.FuncsIn(pkgDynCache) {
-		if watch[fn] {
+	for _, gfn := range p.FuncsIn(pkgDynCache) {
+		if watch[gfn] {
 			continue
 		}
-		for _, call := range callsIn(fn) {
+		for _, call := range callsIn(gfn) {
 			if !c12InformerMapCall(call.Common, "Get") {
 				continue
 			}
-			if namedTypeString(callRecvType(call.Common)) == c12IMap && fn.Signature.Recv() != nil && namedTypeString(fn.Signature.Recv().Type()) == c12IMap {
+			if namedTypeString(callRecvType(call.Common)) == c12IMap && gfn.Signature.Recv() != nil && namedTypeString(gfn.Signature.Recv().Type()) == c12IMap {
 				continue // InformerMap calling itself is not a Cache read path
 			}
-			n++
-			args := callArgs(call.Common)
-			o := c.Ob(fn, "read-informerMap.Get", call.Instr, "a read asks the informer map only for a kind that has a reference, inside the critical section of the reference check")
-			o.Require("T: _, ok := informerReferences[kind]", "informerReferencesMux held from the check to the call")
-			if len(args) < 2 {
-				o.Unknown("unexpected arguments")
-				continue
-			}
-			lk := p.c12RefLookupFact(p.FactsAt(call.Instr.Block()), true, args[1])
-			if lk == nil {
-				o.Fail("informerMap.Get(%s) is reachable without a dominating `ok` of informerReferences[kind]: reading an unwatched kind would silently start an informer", p.describe(args[1]))
-				continue
-			}
-			base, _ := c12IsRefsMap(lk.X)
-			held, why := p.LockHeld(call.Instr, LockReq{Field: c12RefsMux, Base: base}, 3)
-			if !held {
-				o.Fail("informerMap.Get is called outside the reference lock: %s", why)
-				continue
-			}
-			if ok, why := p.lockNotReleasedBetween(lk, call.Instr, c12RefsMux); !ok {
-				o.Fail("the reference lock is released between the check and informerMap.Get: %s", why)
-				continue
-			}
-			o.OK("guarded by ok of " + p.describe(lk) + "; " + why)
-			// the not-watched edge returns CacheNotStartedError
-			oo := c.Ob(fn, "not-started-error", lk, "when the kind has no reference the read returns *CacheNotStartedError")
-			cases := 0
-			bad := ""
-			for _, rc := range p.returnCases(fn) {
-				isAbsent := false
-				for _, f := range rc.Facts {
-					if cond, pol := normBoolCond(f.Cond, f.Pol); !pol && commaOkLookup(cond) == lk {
-						isAbsent = true
-					}
-				}
-				if !isAbsent {
-					continue
-				}
-				cases++
-				idx := errResultIndex(fn)
-				if idx < 0 || namedTypeString(stripConv(rc.Results[idx]).Type()) != pkgDynCache+".CacheNotStartedError" {
-					bad = "return at " + p.IPos(rc.Ret) + " on the not-watched path does not return a CacheNotStartedError"
-				}
-			}
-			switch {
-			case cases == 0:
-				oo.Fail("no return on the `!ok` edge found")
-			case bad != "":
-				oo.Fail("%s", bad)
-			default:
-				oo.OK()
+			for _, rc := range p.c12ReadContexts(call) {
+				n++
+				c12r6Context(c, rc)
 			}
 		}
 	}
 	if n == 0 {
 		c.AnchorLost("informerMap.Get call on a read path")
+	}
+}
+
+func c12r6Context(c *Ctx, rc c12ReadCtx) {
+	p := c.P
+	fn, call := rc.Fn, rc.Get
+	args := callArgs(call.Common)
+	o := c.Ob(fn, "read-informerMap.Get", rc.Site, "a read asks the informer map only for a kind that has a reference, inside the critical section of the reference check")
+	o.Require("T: _, ok := informerReferences[kind]", "informerReferencesMux held from the check to the call")
+	if len(args) < 2 {
+		o.Unknown("unexpected arguments")
+		return
+	}
+	// the reference check dominates the call: in the function of the call (facts imported from all
+	// call sites of an extracted helper included), or before the helper call on this read path
+	lk := p.c12RefLookupFact(p.FactsAtX(call.Instr.Block()), true, args[1])
+	for i := len(rc.Chain) - 1; lk == nil && i >= 0; i-- {
+		// the kind as seen by the function that calls the helper
+		key := args[1]
+		for j := len(rc.Chain) - 1; j >= i && key != nil; j-- {
+			h := staticCallee(rc.Chain[j].Common)
+			pi := -1
+			if h != nil {
+				pi = paramIndex(h, p.c12Resolve(key))
+			}
+			if pi < 0 || pi >= len(rc.Chain[j].Common.Args) {
+				key = nil
+				break
+			}
+			key = rc.Chain[j].Common.Args[pi]
+		}
+		if key != nil {
+			lk = p.c12RefLookupFact(p.FactsAtX(rc.Chain[i].Instr.Block()), true, key)
+		}
+	}
+	if lk == nil {
+		o.Fail("informerMap.Get(%s) is reachable without a dominating `ok` of informerReferences[kind]: reading an unwatched kind would silently start an informer", p.describe(args[1]))
+		return
+	}
+	base, _ := c12IsRefsMap(lk.X)
+	// where the lookup's function continues towards the Get call
+	var towards ssa.Instruction = call.Instr
+	for _, ch := range rc.Chain {
+		if ch.Fn == lk.Parent() {
+			towards = ch.Instr
+			break
+		}
+	}
+	held, why := p.LockHeld(towards, LockReq{Field: c12RefsMux, Base: base}, 3)
+	if held && towards != ssa.Instruction(call.Instr) {
+		// the helper(s) between the check and the Get must not drop the lock either
+		for _, ch := range rc.Chain {
+			if h := staticCallee(ch.Common); h != nil {
+				if rs := p.lockReleases(h); rs.all || rs.fields[c12RefsMux] {
+					held, why = false, "helper "+shortFuncID(h)+" may unlock"
+				}
+			}
+		}
+	}
+	if !held {
+		o.Fail("informerMap.Get is called outside the reference lock: %s", why)
+		return
+	}
+	if ok, why := p.lockNotReleasedBetween(lk, towards, c12RefsMux); !ok {
+		o.Fail("the reference lock is released between the check and informerMap.Get: %s", why)
+		return
+	}
+	o.OK("guarded by ok of " + p.describe(lk) + "; " + why)
+	// the not-watched edge returns CacheNotStartedError
+	oo := c.Ob(fn, "not-started-error", lk, "when the kind has no reference the read returns *CacheNotStartedError")
+	cases := 0
+	bad := ""
+	for _, ec := range p.c12ErrCases(fn, 0) {
+		isAbsent := false
+		for _, f := range ec.Facts {
+			if cond, pol := normBoolCond(f.Cond, f.Pol); !pol && commaOkLookup(cond) == lk {
+				isAbsent = true
+			}
+		}
+		if !isAbsent {
+			continue
+		}
+		cases++
+		if namedTypeString(stripConv(ec.Val).Type()) != pkgDynCache+".CacheNotStartedError" {
+			bad = "return at " + p.IPos(ec.Ret) + " on the not-watched path does not return a CacheNotStartedError"
+		}
+	}
+	// an error handed up by the helper that performs the check must be returned unchanged
+	above := len(rc.Chain) // number of helper calls between fn and the function of the check
+	for i, ch := range rc.Chain {
+		if ch.Fn == lk.Parent() {
+			above = i
+			break
+		}
+	}
+	for _, ch := range rc.Chain[:above] {
+		h := staticCallee(ch.Common)
+		cv, isCall := ch.Instr.(*ssa.Call)
+		if h == nil || !isCall {
+			bad = "the helper that checks the reference is not called by a plain call at " + p.IPos(ch.Instr)
+			continue
+		}
+		for _, r := range p.returnCases(ch.Fn) {
+			idx := errResultIndex(ch.Fn)
+			if idx < 0 {
+				continue
+			}
+			for _, f := range r.Facts {
+				x, trueMeansNonNil, ok := errNilTest(f.Cond)
+				if !ok || f.Pol != trueMeansNonNil {
+					continue
+				}
+				if src, si := asCall(p.c12Resolve(x)); src != cv || si != errResultIndex(h) {
+					continue
+				}
+				for _, pv := range p.possibleValues(r.Results[idx]) {
+					if src, si := asCall(pv); src != cv || si != errResultIndex(h) {
+						bad = "return at " + p.IPos(r.Ret) + " replaces the error of " + h.Name() + " (which reports the missing reference)"
+					}
+				}
+			}
+		}
+	}
+	switch {
+	case cases == 0:
+		oo.Fail("no return on the `!ok` edge found")
+	case bad != "":
+		oo.Fail("%s", bad)
+	default:
+		oo.OK()
 	}
 }
 
@@ -1156,10 +1330,81 @@ func (p *Program) resolveLocalField(v ssa.Value) (ssa.Value, *ssa.Alloc, bool) {
 	return nil, a, false
 }
 
+// c12EntryShape: the element type of the InformerMap.informers map (the per-kind entry; its name is
+// repo-internal and therefore not matched) and the names of its stop-channel field (the only field
+// of channel type) and informer field (the only field whose type has a Run(<-chan struct{}) method).
+func c12EntryShape(p *Program) (elem types.Type, stopField, informerField string, ok bool) {
+	i := strings.LastIndex(c12IMap, ".")
+	pk := p.ByPath[c12IMap[:i]]
+	if pk == nil || pk.Types == nil {
+		return nil, "", "", false
+	}
+	obj := pk.Types.Scope().Lookup(c12IMap[i+1:])
+	if obj == nil {
+		return nil, "", "", false
+	}
+	st, isStruct := obj.Type().Underlying().(*types.Struct)
+	if !isStruct {
+		return nil, "", "", false
+	}
+	for j := 0; j < st.NumFields(); j++ {
+		if st.Field(j).Name() != "informers" {
+			continue
+		}
+		mt, isMap := st.Field(j).Type().Underlying().(*types.Map)
+		if !isMap {
+			return nil, "", "", false
+		}
+		elem = mt.Elem()
+	}
+	if elem == nil {
+		return nil, "", "", false
+	}
+	et := elem
+	if pt, isPtr := et.Underlying().(*types.Pointer); isPtr {
+		et = pt.Elem()
+	}
+	est, isStruct := et.Underlying().(*types.Struct)
+	if !isStruct {
+		return nil, "", "", false
+	}
+	nChan, nInf := 0, 0
+	for j := 0; j < est.NumFields(); j++ {
+		f := est.Field(j)
+		if _, isChan := f.Type().Underlying().(*types.Chan); isChan {
+			stopField = f.Name()
+			nChan++
+			continue
+		}
+		if m, _, _ := types.LookupFieldOrMethod(f.Type(), true, f.Pkg(), "Run"); m != nil {
+			if fn, isFn := m.(*types.Func); isFn {
+				if sig := fn.Type().(*types.Signature); sig.Params().Len() == 1 {
+					if _, isChan := sig.Params().At(0).Type().Underlying().(*types.Chan); isChan {
+						informerField = f.Name()
+						nInf++
+					}
+				}
+			}
+		}
+	}
+	return et, stopField, informerField, nChan == 1 && nInf == 1
+}
+
 func c12r8(c *Ctx) {
 	p := c.P
 	mux := c12IMap + ".informersMux"
 	isInformers := func(v ssa.Value) (ssa.Value, bool) { return guardedFieldLoad(v, c12IMap, "informers") }
+	entryT, stopField, informerField, shapeOK := c12EntryShape(p)
+	if !shapeOK {
+		c.AnchorLost("element type of InformerMap.informers with one channel field and one informer field")
+		return
+	}
+	isEntry := func(t types.Type) bool {
+		if pt, isPtr := t.Underlying().(*types.Pointer); isPtr {
+			t = pt.Elem()
+		}
+		return types.Identical(t, entryT)
+	}
 	nClose := 0
 	for _, fn := range p.FuncsIn(pkgDynCache) {
 		for _, b := range fn.Blocks {
@@ -1171,7 +1416,7 @@ func c12r8(c *Ctx) {
 						continue
 					}
 					fa, isFA := u.X.(*ssa.FieldAddr)
-					if !isFA || namedTypeString(fa.X.Type()) != c12MapEntry || fieldName(fa.X.Type(), fa.Field) != "StopCh" {
+					if !isFA || !isEntry(fa.X.Type()) || fieldName(fa.X.Type(), fa.Field) != stopField {
 						continue
 					}
 					nClose++
@@ -1271,7 +1516,7 @@ func c12r8(c *Ctx) {
 					oo := c.Ob(fn, "informer-run", mu, "the stored informer is started (go Run) with the stop channel stored in the same entry, after the entry is stored")
 					fields, _, okLit := compositeFields(mu.Value)
 					if !okLit {
-						oo.Unknown("stored entry is not a mapEntry literal")
+						oo.Unknown("stored entry is not a composite literal of the entry type")
 						continue
 					}
 					var goRun *ssa.Go
@@ -1297,13 +1542,13 @@ func c12r8(c *Ctx) {
 						}
 					}
 					var pr []string
-					if !p.sameValue(recv, fields["Informer"]) {
+					if !p.sameValue(recv, fields[informerField]) {
 						pr = append(pr, "Run is invoked on "+p.describe(recv)+", not on the stored informer")
 					}
-					if stop == nil || !p.sameValue(stop, fields["StopCh"]) {
+					if stop == nil || !p.sameValue(stop, fields[stopField]) {
 						pr = append(pr, "Run is not given the stored StopCh (Delete could never stop this informer)")
 					}
-					if _, isMk := stripConv(fields["StopCh"]).(*ssa.MakeChan); !isMk {
+					if _, isMk := stripConv(fields[stopField]).(*ssa.MakeChan); !isMk {
 						pr = append(pr, "stored StopCh is not a freshly made channel")
 					}
 					if !p.mustPrecede(goRun, func(x ssa.Instruction) bool { return x == ssa.Instruction(mu) }) {
